@@ -4,6 +4,11 @@
 # props=auto: take the property from the patch path (seeded/<Cnn>...) or from its "# Mxx property=Cnn" header.
 props=$1; shift
 bin=${GODICHECK:-/verif/bin/godicheck}
+# every scratch copy compiles the patched module under its own path: in the shared build cache a full
+# sweep leaves ~10 MB per run behind (a thorough pass over all properties: >100 GB). The sweeps use a
+# cache of their own, which the callers that sweep in bulk (thorough.sh, regress.sh) remove afterwards.
+export GOCACHE=${GODICHECK_SWEEP_CACHE:-/tmp/godicheck-sweep-cache}
+mkdir -p "$GOCACHE"
 run_one() {
   patch=$(realpath "$1"); props=$2; bin=$3
   if [ "$props" = auto ]; then
